@@ -258,7 +258,10 @@ def mps_worker(job: dict) -> dict:
                         v2 = getattr(res2, tag)[t2.index(round(float(t), 12))]
                         g2 = np.asarray(v2.detach().numpy() if hasattr(v2, "detach") else v2, dtype=complex)
                         sc = 1.0 if tag in ("occupation", "correlation_matrix") else (hnorm if tag == "energy" else hnorm**2)
-                        bud += min(3.0 * float(np.max(np.abs(got - g2))), job.get("tdvp_cap", 2e-3) * sc)
+                        # the cap grows with the step: the projection error of two-site TDVP scales with a power of dt, and a single
+                        # giant step (dt above the duration) is legitimately far less accurate than dt = 10 ns
+                        cap = min(0.2, job.get("tdvp_cap", 2e-3) * max(1.0, job["dt"] / 10.0) ** 2)
+                        bud += min(3.0 * float(np.max(np.abs(got - g2))), cap * sc)
                     except (ValueError, IndexError):
                         pass
                 worst = max(worst, err / bud)
